@@ -58,7 +58,7 @@ PROPS["C03"] = {
             "EVERY write and fsync the victim issues on the log, and at each such point two crash images are taken (log as written so far; log cut at the last fsync); every image is "
             "recovered with the real InitStorage and must equal the model state before the victim plus the first r row operations for some r in 0..n (other tables untouched, catalog intact), "
             "then 1-3 follow-up multi-row inserts run on the recovered files and are compared with the model continued from that prefix. "
-            "One case in five starts with 7-11 tables (multi-page catalog). One case in six has a restart inside the history (burst of CREATE TABLEs, restart, root-moving INSERT); follow-up inserts go into every table. After the follow-up inserts the process ends (cleanly / by death, alternating) and starts a second time; the state must be the same. Crash images are taken before every physical write to the log file (hook wal.fwrite) and every fsync. Non-trivial: a victim with >=3 row operations whose images recovered to at least two different prefixes r (e.g. r=0 before the log write and r=n after the write but before its fsync; proper prefixes 0<r<n are labelled separately); distinct by case JSON.",
+            "One case in five starts with 7-11 tables (multi-page catalog). One case in six has a restart inside the history (burst of CREATE TABLEs, restart, root-moving INSERT); follow-up inserts go into every table. After the follow-up inserts the process ends (cleanly / by death, alternating) and starts a second time; the state must be the same. In half of the cases crash images are taken before every PHYSICAL write to the log file (the file is wrapped on request, hook wal.fwrite), in the other half before the logical write in wal.flush; always before every fsync. Non-trivial: a victim with >=3 row operations whose images recovered to at least two different prefixes r (e.g. r=0 before the log write and r=n after the write but before its fsync; proper prefixes 0<r<n are labelled separately); distinct by case JSON.",
     "technique": "fault injection at every log write/fsync call of generated victim statements (rapid + build-tag hook), prefix-state oracle from a reference model",
     "level_text": "All log-write crash points of each generated victim statement are enumerated (exhaustive per statement, both tail-cut variants) and recovered with the real code; histories and victims are random.",
     "level_note": "Crash = process death at a write-call boundary (the property's own granularity); a torn individual write() is not generated. Trusted: reference model with prefix semantics, hook placement (before each Write/Sync in wal.flush).",
@@ -270,6 +270,6 @@ PROPS["C13"] = {
     "assumptions": ["the race detector sees every conflicting access pair that actually executes without a happens-before edge"],
 }
 
-HOOK_COMMITS = ["7ca683e", "9610f73", "33713cb", "e8dcaea"]
+HOOK_COMMITS = ["7ca683e", "9610f73", "33713cb", "e8dcaea", "0cda325"]
 
 NOT_APPLICABLE = {}
